@@ -112,7 +112,7 @@ func init() {
 		Run:   c01Run,
 		Batch: func(tier string, n int) int { return 16 },
 		Rule: "documents built only through the public API (NewNode, AddNode, Document.AddIndividual/AddFamily, FamilyNode.SetHusbandPointer/SetWifePointer/AddChild, role nodes moved with DeleteNode+AddNode) and compared with NewDocumentFromString(doc.String()) by simultaneous walk (tag, value, pointer, Go type, child count/order, HasBOM). " +
-			"(a) exhaustive: every ordered forest shape with <= 4 (quick) / <= 5 (thorough) nodes x 8 labels per node x BOM on/off; (b) random forests over every registered tag, custom/numeric tags, all value classes, duplicate siblings, chains of every depth 0..99. non-trivial = has a nested node; distinct by hash of the encoded text",
+			"(a) exhaustive: every ordered forest shape with <= 4 (quick) / <= 5 (thorough) nodes x 8 labels per node x BOM on/off; (b) random forests over every registered tag, custom/numeric tags, all value classes, duplicate siblings, chains of every depth 0..99; every 40th random document has 255..4097 root records (sizes on both sides of powers of two and round numbers). non-trivial = has a nested node; distinct by hash of the encoded text",
 		Exhaustive: func(tier string) bool { return false },
 		Floors: func(a *fw.Agg, tier string) []string {
 			var f []string
@@ -128,6 +128,9 @@ func init() {
 			}
 			if miss > 0 {
 				f = append(f, fmt.Sprintf("%d registered tags never appeared in a built document", miss))
+			}
+			if a.ClassCount("root-records") < 10 {
+				f = append(f, fmt.Sprintf("only %d sizes of documents with hundreds of root records", a.ClassCount("root-records")))
 			}
 			if a.ClassCount("kind") < 25 {
 				f = append(f, fmt.Sprintf("only %d specialised node kinds seen", a.ClassCount("kind")))
@@ -270,6 +273,23 @@ func c01Run(c *fw.Ctx, i int) {
 		o.MaxNodes = 200
 	}
 	specs := gen.RandomForest(c.R, o)
+	if k%40 == 5 {
+		// documents with hundreds or thousands of root records (a real file has
+		// tens of thousands): sizes on both sides of the powers of two and of
+		// other round numbers, so that work done in blocks has a remainder
+		sizes := []int{255, 256, 257, 300, 383, 384, 385, 511, 512, 513, 600, 767, 769, 1000, 1023, 1024, 1025, 1283, 2047, 2049, 3001, 4097}
+		want := sizes[(k/40)%len(sizes)]
+		small := gen.ForestOpts{MaxRoots: 3, MaxKids: 2, MaxDepth: 2, MaxNodes: 6}
+		for len(specs) < want {
+			specs = append(specs, gen.RandomForest(c.R, small)...)
+		}
+		specs = specs[:want]
+		// the last records are told apart from every other one
+		specs[want-1] = &gen.Spec{Tag: "TRLR"}
+		specs[want-2] = &gen.Spec{Tag: "NOTE", Value: fmt.Sprintf("record %d of %d", want-1, want), Pointer: fmt.Sprintf("N%d", want)}
+		c.Count("documents-with-hundreds-of-root-records", 1)
+		c.Class("root-records", fmt.Sprint(want))
+	}
 	c01Stats(c, specs)
 	maxd := 0
 	for _, s := range specs {
